@@ -99,6 +99,18 @@ func (in *Interp) unop(fr *frame, instr *ssa.UnOp, x Value) Value {
 			}
 			return v
 		}
+		if ch != nil && len(in.goq) > 0 {
+			// the receive would block: the pending goroutines run first
+			in.runPendingGo(fr)
+			if len(ch.buf) > 0 {
+				v := ch.buf[0]
+				ch.buf = ch.buf[1:]
+				if instr.CommaOk {
+					return Tuple{v, tTrue}
+				}
+				return v
+			}
+		}
 		panic(in.abort("unsupported", "blocking channel receive in "+fr.fn.String()))
 	}
 	panic(in.abort("internal", fmt.Sprintf("unop %v on %T", instr.Op, x)))
